@@ -165,6 +165,8 @@ struct Decls {
     order_tie: bool,
     /// first entry of the line map that points outside the delivered input, if any
     bad_map: Option<String>,
+    /// (hash of the key set, hash of the iteration order, size) of the `variables` and `functions` hash maps
+    map_orders: Vec<(u64, u64, u8)>,
 }
 
 fn strip_order(dbg: &str) -> (String, Option<u64>) {
@@ -212,6 +214,26 @@ fn obs_build(cs: &CompilerState, w: &mut dyn Write, args: &Args) -> Result<(), E
         }
     }
     d.max_map = cs.variables.len().max(cs.functions.len());
+    // reach measure: in which order did the two hash maps iterate under this thread's hash key?
+    {
+        let mut record = |names: Vec<&String>| {
+            if names.len() >= 2 && names.len() <= 6 {
+                let mut oh = Fnv::new();
+                for n in &names {
+                    oh.write_str(n);
+                }
+                let mut sorted = names.clone();
+                sorted.sort();
+                let mut sh = Fnv::new();
+                for n in &sorted {
+                    sh.write_str(n);
+                }
+                d.map_orders.push((sh.finish(), oh.finish(), names.len() as u8));
+            }
+        };
+        record(cs.variables.keys().collect());
+        record(cs.functions.keys().collect());
+    }
     let mut h = Fnv::new();
     h.write_str(cs.preprocessed_utf8);
     for m in cs.mapped_lines.iter() {
@@ -359,6 +381,7 @@ pub struct JobResult {
     pub switched_out_at: Vec<&'static str>,
     pub getrandom_calls: u32,
     pub bad_map: Option<String>,
+    pub map_orders: Vec<(u64, u64, u8)>,
     pub clock_reads: u32,
     pub pid_reads: u32,
     pub include_depth: u32,
@@ -529,6 +552,7 @@ fn run_job(job: &JobSpec, env: &WorkerEnv, sched: &Arc<Sched>, tid: usize, multi
         switched_out_at: ctx.switched_out_at,
         getrandom_calls: simenv::getrandom_calls() - gr0,
         bad_map: decls.bad_map.clone(),
+        map_orders: decls.map_orders.clone(),
         clock_reads: clock_reads.0,
         pid_reads: clock_reads.1,
         include_depth: 0,
